@@ -26,7 +26,11 @@ class CSSCaptureHTMLParser(html.parser.HTMLParser):
     """CSSCapture helper: Parse given data for link and style elements"""
 
     curtag = ''
-    sheets = []  # (type, [atts, cssText])
+
+    def __init__(self, *args, **kwargs):
+        super().__init__(*args, **kwargs)
+        # per parser, else all sheets ever found would be reported
+        self.sheets = []  # (type, [atts, cssText])
 
     def _loweratts(self, atts):
         return {a.lower(): v.lower() for a, v in atts}
